@@ -126,7 +126,7 @@ def main() -> None:
     all_ids = ['C%02d' % i for i in range(1, 21)]
     manifest = {
         'version': 1,
-        'setup_cmd': 'PYTHONPATH=/verif /venv/bin/python -m vf.deps',
+        'setup_cmd': 'PYTHONPATH=/verif /venv/bin/python -m vf.deps atheris',
         'hooks': {
             'guard': 'AUTOBEAN_REFACTOR_VERIF',
             'enable': 'no source hooks are needed: checks import /repo\'s working tree directly (PYTHONPATH=/repo) and patch the token-store load factor through its module constants',
